@@ -60,13 +60,16 @@ def build(lanes):
     kinds = [ln['kind'] for ln in lanes]
     kind_idx = {k: np.array([i for i, kk in enumerate(kinds) if kk == k], dtype=int) for k in set(kinds)}
 
+    f32 = bool(lanes and lanes[0].get('f32'))
+
     def f(x):
         x = np.asarray(x, dtype=float)
         z = (x - r) / w
         out = np.empty_like(z)
         for k, idx in kind_idx.items():
             out[idx] = slope[idx] * g(k, z[idx])
-        return out
+        # a function computed in single precision (a float32 model, a GPU kernel): the solvers' tolerances are about x
+        return out.astype(np.float32) if f32 else out
 
     return f, lo, hi, r
 
@@ -116,6 +119,8 @@ def batch_strategy():
                 p = dict(protos[rs.randint(len(protos))])
                 p['frac'] = float(rs.uniform()) if rs.uniform() < 0.85 else float(rs.randint(2))
                 lanes.append(p)
+        if draw(st.integers(0, 5)) == 0:
+            lanes = [dict(ln, f32=True) for ln in lanes]
         return {'lanes': lanes, 'probe': draw(st.integers(0, n - 1))}
 
     return batches()
@@ -137,6 +142,8 @@ def classes_of(lanes):
         out.append('flat-root')
     if any(ln['kind'] == 'root5' for ln in lanes):
         out.append('infinite-slope')
+    if lanes and lanes[0].get('f32'):
+        out.append('float32-function')
     if any(ln.get('far') for ln in lanes):
         out.append('far-lane' if all(ln.get('far') for ln in lanes) else 'far-and-near-lanes')
     return out
